@@ -4,9 +4,11 @@
 (*   {"a":"Reset","fee":..,"lat":..,"cfg":{bal,open},"post":{bal,open,trades,notif}}   *)
 (*        a fresh exchange built from the configuration `cfg`                *)
 (*   {"a":"open"|"snapshot"|"balances"|"trades", t, side, p, q, instr, kind, since,     *)
-(*    "out":"ok"|"rej"|"query", "why", "id", "filled",                       *)
+(*    "out":"ok"|"rej"|"query", "why", "id", "filled", "rt",                 *)
 (*    "res":{bal,open,trades}, "post":{bal,open,trades,notif}}               *)
 (*        one request, the answer, the projected ledger after it             *)
+(*        (`rt` = the exchange time the response of an accepted order       *)
+(*        carries, -1 otherwise)                                             *)
 (* Amounts are integers in 1/100 units, times in ms.                         *)
 (* A line that is not a step of the spec is recorded in `bad` together with  *)
 (* the names of the clauses of C08 it breaks (`why`), and the logged state   *)
@@ -22,6 +24,10 @@ tvars == <<vars, l, bad, why>>
 BalOf(b) == [a \in Assets |-> [total |-> b[a].total, free |-> b[a].free]]
 SetOf(s) == {s[i] : i \in DOMAIN s}
 ReqOf(x) == Req(x.a, x.t, x.side, x.p, x.q, x.instr, x.kind, x.since)
+
+\* the exchange clock is observable only through accepted orders (the response and the fill
+\* carry it); otherwise any admissible reading will do - take the code's
+ClockOf(x) == IF x.out = "ok" THEN x.rt ELSE NowAfter(ReqOf(x))
 
 ResetResp == Resp([NoReq EXCEPT !.op = "Reset"], "init", "-", -1, 0)
 
@@ -59,15 +65,18 @@ Checks(x) ==
       n0  == Len(notif)
   IN [ AcceptIff    |-> (r.op = "open") => (x.out \in {"ok", "rej"} /\ (acc <=> Accepts(r))),
        ExactDebit   |-> acc => (Listed(r) /\ pb = Debit(bal, Spent(r), Need(r))),
-       NonNegative  |-> \A a \in Assets : pb[a].free >= 0 /\ pb[a].total >= 0 /\ pb[a].total = pb[a].free,
+       \* judged on the step that breaks it (the logged state is adopted afterwards)
+       NonNegative  |-> (\A a \in Assets : bal[a].free >= 0 /\ bal[a].total >= 0 /\ bal[a].total = bal[a].free)
+                          => (\A a \in Assets : pb[a].free >= 0 /\ pb[a].total >= 0 /\ pb[a].total = pb[a].free),
        RejectPure   |-> ~acc => (pb = bal /\ pt = trades /\ pn = notif),
        FreshIds     |-> acc => x.id \in FreshIds,
-       OneFill      |-> acc => (x.filled = r.q /\ pt = Append(trades, Fill(x.id, r))),
+       OneFill      |-> acc => (x.filled = r.q /\ pt = Append(trades, Fill(x.id, r, x.rt))),
+       Clock        |-> acc => x.rt \in ClockChoices(r),
        Notif11      |-> acc => ( /\ Len(pn) = n0 + 2 /\ SubSeq(pn, 1, n0) = notif
                                  /\ pn[n0 + 1].k = "balance" /\ pn[n0 + 2].k = "trade" ),
        NotifContent |-> (acc /\ Len(pn) = n0 + 2) =>
                              ( /\ pn[n0 + 1] = BalNotif(Spent(r), pb[Spent(r)])
-                               /\ pn[n0 + 2] = FillNotif(Fill(x.id, r)) ),
+                               /\ pn[n0 + 2] = FillNotif(Fill(x.id, r, x.rt)) ),
        QueriesReflect |-> /\ (r.op # "open") <=> (x.out = "query")
                           /\ r.op = "snapshot" => (BalOf(x.res.bal) = bal /\ SetOf(x.res.open) = open)
                           /\ r.op = "balances" => BalOf(x.res.bal) = bal
@@ -90,7 +99,7 @@ Observed(x) == /\ bal' = BalOf(x.post.bal)
 
 TStepOK == /\ Rec[l].a # "Reset"
            /\ StepOK(Rec[l])
-           /\ Serve(ReqOf(Rec[l]), Rec[l].id)             \* the spec's own action
+           /\ Serve(ReqOf(Rec[l]), Rec[l].id, ClockOf(Rec[l]))   \* the spec's own action
            /\ Observed(Rec[l])
            /\ UNCHANGED <<bad, why>>
 
@@ -98,7 +107,7 @@ TStepBad == /\ Rec[l].a # "Reset"
             /\ ~StepOK(Rec[l])
             /\ Adopt(Rec[l])
             /\ nextId' = IF Rec[l].out = "ok" /\ Rec[l].id >= nextId THEN Rec[l].id + 1 ELSE nextId
-            /\ now' = NowAfter(ReqOf(Rec[l]))
+            /\ now' = ClockOf(Rec[l])
             /\ last' = Resp(ReqOf(Rec[l]), Rec[l].out, "-", Rec[l].id, Rec[l].filled)
             /\ res' = NoRes
             /\ UNCHANGED world
